@@ -30,10 +30,10 @@ def main():
             src=open(demo).read(); m=re.findall(r'func (Test\w+)\(',src)
             demo_name='|'.join(m) if m else 'TestDemo'
             shutil.copy(demo,os.path.join(wt,'zz_demo_test.go'))
-            rc_with,out_with=sh("flock /tmp/shmipc_suite.lock go test -vet=off -count=1 -run '^(%s)$' -timeout 10m . "%demo_name,cwd=wt)
+            rc_with,out_with=sh("go test -vet=off -count=1 -run '^(%s)$' -timeout 10m . "%demo_name,cwd=wt)
             meta['demo_fails_with_change']=(rc_with!=0)
             sh('git apply -R --whitespace=nowarn %s'%patch,cwd=wt)
-            rc_wo,out_wo=sh("flock /tmp/shmipc_suite.lock go test -vet=off -count=1 -run '^(%s)$' -timeout 10m . "%demo_name,cwd=wt)
+            rc_wo,out_wo=sh("go test -vet=off -count=1 -run '^(%s)$' -timeout 10m . "%demo_name,cwd=wt)
             meta['demo_passes_without_change']=(rc_wo==0)
             sh('git apply --whitespace=nowarn %s'%patch,cwd=wt)
             os.remove(os.path.join(wt,'zz_demo_test.go'))
